@@ -41,7 +41,7 @@ Step(ev) ==
          /\ obs' = [a |-> "create", arg |-> ev.arg, src |-> ev.src, exp |-> ev.obs]
          /\ IF Known(ev.src)
             THEN /\ ev.obs.ret = "ok"                    \* a well-formed description is accepted
-                 /\ inst' = <<Fresh(Elems(ev.src))>>
+                 /\ \E c \in Cands(ev.src) : inst' = <<Fresh(c)>>     \* undecided trailing text: either reading
                  /\ memo' = [ref |-> <<>>, k |-> <<>>]
             ELSE /\ ev.obs.ret \in {"ok", "refused"}     \* anything else may be refused
                  /\ inst' = <<>>
